@@ -183,6 +183,36 @@ def run(prog, rep):
                "their pending bytes and positions are lost" % (line(hit7[1]), f0.name, hit7[1].get("callee"), hit7[0]), hit7[1] if hit7 else f0.loc[0])
     rep.floor("C08.7", 3)
 
+    # ---- C08.8 ---------------------------------------------------------------
+    rep.rule("C08.8", "full width: positions, sizes and lengths are computed at psize width - no conversion in pshmbuffer.c narrows an integer value except the documented "
+                      "pint result of read / write (a position or a length kept in a 32-bit local wraps for segments and requests of 4 GiB and more)")
+    psz = 64
+    narrow8 = []
+    n8 = 0
+    for f0 in sorted(u.functions.values(), key=lambda f: f.loc[0]):
+        rets = set(id(m) for (b, i, r_) in f0.returns() if r_.get("e") is not None for m in walk(r_["e"], elsewhere=True))
+        # ... also where the result goes through a result variable (`ret = (pint) to_copy; goto unlock; ... return ret;`)
+        rv = set(strip_casts(r_["e"])["name"] for (b, i, r_) in f0.returns() if r_.get("e") is not None and strip_casts(r_["e"]) is not None and strip_casts(r_["e"])["k"] == "ref")
+        # (a pure result variable: only ever assigned and returned - a length that is also used for the copy is not one)
+        lhs_ids = set(id(strip_casts(n["l"])) for (b, i, n) in f0.nodes(elsewhere=True) if n["k"] == "asg" and strip_casts(n["l"]) is not None)
+        ret_ids = set(id(strip_casts(r_["e"])) for (b, i, r_) in f0.returns() if r_.get("e") is not None)
+        rv = set(v for v in rv if all(id(n) in lhs_ids or id(n) in ret_ids for (b, i, n) in f0.nodes(elsewhere=True) if n["k"] == "ref" and n["name"] == v))
+        for (b, i, n) in f0.nodes(elsewhere=True):
+            if n["k"] == "asg" and strip_casts(n["l"]) is not None and strip_casts(n["l"])["k"] == "ref" and strip_casts(n["l"])["name"] in rv:
+                rets |= set(id(m) for m in walk(n["r"], elsewhere=True))
+        n8 += 1
+        for (b, i, n) in f0.nodes(elsewhere=True):
+            if n["k"] == "cast" and n.get("ck") == "IntegralCast" and cv(n) is None:
+                to, ti = u.types[n["t"]], u.type_of(n["e"])
+                if to and ti and to.get("w") and ti.get("w") and to["w"] < ti["w"] and id(n) not in rets:
+                    narrow8.append((f0, n, ti.get("s"), to.get("s")))
+            if n["k"] == "decl" and n.get("init") is None:
+                pass
+    rep.ob("C08.8", u.fn("p_shm_buffer_read"), "width", not narrow8, "no position, size or length is narrowed below %d bits in the %d functions of pshmbuffer.c" % (psz, n8) if not narrow8 else
+           "line %d: %s converts %s (%s) to %s: positions and lengths wrap for segments or requests of 4 GiB and more" % (
+               line(narrow8[0][1]), narrow8[0][0].name, show(narrow8[0][1]["e"]), narrow8[0][2], narrow8[0][3]), narrow8[0][1] if narrow8 else u.fn("p_shm_buffer_read").loc[0])
+    rep.floor("C08.8", 1)
+
     # ---- helpers: C08.5 ---------------------------------------------------------
     helper_terms = {}
     for hn in HELPERS:
@@ -304,11 +334,18 @@ def run(prog, rep):
     # clear: zero fill of the whole segment header under the lock
     fn, r = ops["p_shm_buffer_clear"]
     fills = [c for c in r["copies"] if c[0] == "fill"]
-    okc = len(fills) == 1 and fills[0][1] == C(0) and fills[0][2] == C(0)
+    # one zero fill from offset 0, or several that continue each other (header first, then the data area)
+    fills = sorted(fills, key=lambda c: (symx._sum_terms(norm(c[1]))[1], repr(c[1])))
+    okc = bool(fills) and fills[0][1] == C(0) and all(c[2] == C(0) for c in fills)
+    total = C(0)
+    for k_, c in enumerate(fills):
+        if okc and norm(c[1]) != norm(total):
+            okc = False
+        total = norm(("bin", "+", total, c[3]))
     msgc = "clear does not zero-fill the segment from its start"
     if okc:
         # ... and far enough: the whole segment as the shm layer reports it, or at least the 16-byte header holding both positions
-        ln_t = norm(fills[0][3])
+        ln_t = norm(total)
         terms_, const_ = symx._sum_terms(ln_t)
         whole = ln_t[0] == "call" and ln_t[1] == "p_shm_get_size"
         header = const_ >= 16 and all(sg > 0 for (sg, x) in terms_)
@@ -515,13 +552,15 @@ def run(prog, rep):
     # ---- C08.4 one modulus -------------------------------------------------------------
     nw = u.fn("p_shm_buffer_new")
     writers = []
-    for f in u.functions.values():
+    for f in u.roots():             # (the store may sit in a static helper of the constructor)
         for b, i, n in f.nodes():
             if n["k"] == "asg":
                 l = strip_casts(n["l"])
                 if l is not None and l["k"] == "member" and l["field"] == "size" and l.get("rec") == "PShmBuffer_":
                     writers.append((f, n))
     ok4 = len(writers) == 1 and writers[0][0].name == "p_shm_buffer_new"
+    if ok4:
+        nw = writers[0][0]
     msg = ""
     if ok4:
         rhs = writers[0][1]["r"]
@@ -754,6 +793,8 @@ def is_min(t, a, b):
 RENAME_LOCALS = ['src/pshmbuffer.c']
 
 SELFTEST = [
+    dict(id="read-length-in-32-bit-local", file="src/pshmbuffer.c", expect="C08.8", count=1,
+         old="\tpsize\t\tto_copy;", new="\tpuint\t\tto_copy;"),
     dict(id="buffer-new-clears-the-segment", file="src/pshmbuffer.c", expect="C08.7",
          old="\tret->size = p_shm_get_size (shm) - P_SHM_BUFFER_DATA_OFFSET;\n\n\treturn ret;", new="\tret->size = p_shm_get_size (shm) - P_SHM_BUFFER_DATA_OFFSET;\n\n\tp_shm_buffer_clear (ret);\n\n\treturn ret;"),
     dict(id="clear-fills-ring-size-only", file="src/pshmbuffer.c", expect="C08.2",
